@@ -350,6 +350,15 @@ fn run(case: &Case, cx: &mut Cx) -> CaseResult {
                 let got = Apath::is_valid(s);
                 let want = ref_valid(s);
                 ensure!(got == want, "C11/is-valid", "is_valid({s:?}) = {got}, documented rule says {want}");
+                // parsing text into a path (what the command line does) accepts exactly the
+                // well-formed strings and yields that very string
+                let parsed = s.parse::<Apath>();
+                ensure!(
+                    parsed.is_ok() == want && parsed.as_ref().map_or(true, |a| a.to_string() == *s),
+                    "C11/parse",
+                    "{s:?}.parse::<Apath>() = {:?}, documented rule says well-formed = {want}",
+                    parsed.as_ref().map(|a| a.to_string()).map_err(|_| "error")
+                );
             }
             cx.add_evals(ss.len() as u64);
             cx.label("random-strings");
